@@ -257,3 +257,87 @@ Theorem C15_bytes_hyps_satisfiable :
   msg_root_ok toy_digest ex_root (message_bytes ex_msg).
 Proof. exact ex_hyps. Qed.
 Print Assumptions C15_bytes_hyps_satisfiable.
+
+(* ------------------------------------------------------------------ *)
+(* Reading the receipt a report names (coq/ReceiptBytes.v): receipt.NewReceipt — the reader behind
+   ReceiptReader.Read — on ARBITRARY block bytes: typed decoding of the Receipt / Outcome / Result /
+   Effects schema, block.Decode's integrity check, "neither ok nor error".  Checked on every run against
+   the implementation for every receipt the report of a decoded body names (Check_Bytes.v, code 8). *)
+From Ucanto Require Import TokenBytes ReceiptFormat ReceiptBytes.
+
+(* for EVERY store and link the reader classifies: a receipt, or one of four error classes (RUnm marks the
+   inputs outside the modelled domain: a repeated struct key) — and a receipt comes only from bytes that
+   the store binds to the link, that hash to it, and that decode under the schema with a result side *)
+Theorem C15_bytes_read_receipt_inv : forall mh_digest s root r,
+  read_receipt mh_digest s root = ROk r ->
+  exists data v t,
+    tbl_get s root = Some data /\ cbor_decode_all_t data = Some v /\
+    receipt_typed v = TOk (t, r_sig r) /\ to_outcome t = Some (r_ocm r) /\
+    root_integrity mh_digest root data = true.
+Proof. exact read_receipt_ok_inv. Qed.
+Print Assumptions C15_bytes_read_receipt_inv.
+
+Theorem C15_bytes_read_receipt_missing : forall mh_digest s root,
+  tbl_get s root = None -> read_receipt mh_digest s root = RMissing.
+Proof. exact read_receipt_missing. Qed.
+Print Assumptions C15_bytes_read_receipt_missing.
+
+(* a block filed under a link its bytes do not hash to never reads as a receipt *)
+Theorem C15_bytes_read_receipt_relabelled : forall mh_digest s root data,
+  tbl_get s root = Some data -> root_integrity mh_digest root data = false ->
+  forall r, read_receipt mh_digest s root <> ROk r.
+Proof. exact read_receipt_relabelled. Qed.
+Print Assumptions C15_bytes_read_receipt_relabelled.
+
+(* the bytes under the link decide: other blocks of the response cannot change what is read *)
+Theorem C15_bytes_read_receipt_bytes_decide : forall mh_digest s s' root,
+  tbl_get s root = tbl_get s' root -> read_receipt mh_digest s root = read_receipt mh_digest s' root.
+Proof. exact read_receipt_bytes_decide. Qed.
+Print Assumptions C15_bytes_read_receipt_bytes_decide.
+
+(* a receipt that was read has a result, ok first *)
+Theorem C15_bytes_read_receipt_has_result : forall mh_digest s root r,
+  read_receipt mh_digest s root = ROk r ->
+  exists t, to_outcome t = Some (r_ocm r) /\
+    (if o_ok (r_ocm r) then t_okv t = Some (o_val (r_ocm r))
+     else t_okv t = None /\ t_errv t = Some (o_val (r_ocm r))).
+Proof. exact read_receipt_has_result. Qed.
+Print Assumptions C15_bytes_read_receipt_has_result.
+
+(* the client's path — message.Get, then the reader — yields a value for every decoded response and link *)
+Theorem C15_bytes_client_receipt_total : forall mh_digest d inv,
+  client_receipt mh_digest d inv = None \/ exists x, client_receipt mh_digest d inv = Some x.
+Proof. exact client_receipt_total. Qed.
+Print Assumptions C15_bytes_client_receipt_total.
+
+Theorem C15_bytes_client_receipt_inv : forall mh_digest d inv r,
+  client_receipt mh_digest d inv = Some (ROk r) ->
+  exists rl data, get_bytes (d_msg d) inv = Ret (Some rl) /\ tbl_get (d_store d) rl = Some data /\
+                  root_integrity mh_digest rl data = true.
+Proof. exact client_receipt_inv. Qed.
+Print Assumptions C15_bytes_client_receipt_inv.
+
+(* round trip: every receipt the library can issue (a present, well-formed result value; well-formed, distinct
+   meta entries), filed under the link of its bytes, reads back as itself *)
+Theorem C15_bytes_read_receipt_roundtrip : forall mh_digest s root r,
+  wf_ipld (receipt_ipld r) = true -> in_budget (receipt_ipld r) = true -> rcpt_typed_ok r = true ->
+  tbl_get s root = Some (receipt_bytes r) -> root_integrity mh_digest root (receipt_bytes r) = true ->
+  read_receipt mh_digest s root = ROk (canon_rcpt r).
+Proof. exact read_receipt_roundtrip. Qed.
+Print Assumptions C15_bytes_read_receipt_roundtrip.
+
+Theorem C15_bytes_client_receipt_roundtrip : forall mh_digest d inv rl r,
+  get_bytes (d_msg d) inv = Ret (Some rl) ->
+  wf_ipld (receipt_ipld r) = true -> in_budget (receipt_ipld r) = true -> rcpt_typed_ok r = true ->
+  tbl_get (d_store d) rl = Some (receipt_bytes r) -> root_integrity mh_digest rl (receipt_bytes r) = true ->
+  client_receipt mh_digest d inv = Some (ROk (canon_rcpt r)).
+Proof. exact client_receipt_roundtrip. Qed.
+Print Assumptions C15_bytes_client_receipt_roundtrip.
+
+(* the hypotheses are satisfiable (toy digest), and the decision logic evaluates as stated on altered blocks *)
+Theorem C15_bytes_read_receipt_hyps_satisfiable :
+  wf_ipld (receipt_ipld exr) = true /\ in_budget (receipt_ipld exr) = true /\ rcpt_typed_ok exr = true /\
+  tbl_get (tbl_of [ex_b1; (exr_root, exr_data)]) exr_root = Some (receipt_bytes exr) /\
+  root_integrity toy_digest exr_root (receipt_bytes exr) = true.
+Proof. exact exr_hyps. Qed.
+Print Assumptions C15_bytes_read_receipt_hyps_satisfiable.
